@@ -3,7 +3,9 @@ package rules
 import (
 	"fmt"
 	"go/ast"
+	"go/token"
 	"go/types"
+	"math/big"
 	"regexp"
 	"sort"
 	"strings"
@@ -53,6 +55,7 @@ func rolesString(m map[string]bool) string {
 // defaultsWiring checks the packages whose relative path has one of the given prefixes.
 func (c *Ctx) defaultsWiring(rule string, prefixes ...string) {
 	run := c.Run
+	run.Floor("documented_default_values", 5)
 	for _, pk := range c.P.Pkgs {
 		rel := load.RelPkg(pk.PkgPath)
 		match := false
@@ -69,6 +72,7 @@ func (c *Ctx) defaultsWiring(rule string, prefixes ...string) {
 			if strings.HasSuffix(c.P.Fset.Position(f.Pos()).Filename, "_test.go") {
 				continue
 			}
+			c.documentedDefaults(rule, rel, info, f)
 			check := func(constExpr ast.Expr, dest string, pos ast.Node) {
 				id := constIdentOf(constExpr)
 				if id == nil {
@@ -227,4 +231,56 @@ func (c *Ctx) constructorParameters(rule string, prefixes ...string) {
 		}
 	}
 	run.Count("constructor_parameters", n)
+}
+
+var statedDefault = regexp.MustCompile(`\bof (-?[0-9]+(?:\.[0-9]+)?)\s*(%?)\.?\s*$`)
+
+// documentedDefaults: a default constant whose own comment states its value ("... is the default
+// EMA period of 255.") has that value. The comment (repeated in the generated README) is the
+// documented default configuration; the constant is what the default constructor uses.
+func (c *Ctx) documentedDefaults(rule, rel string, info *types.Info, f *ast.File) {
+	run := c.Run
+	for _, d := range f.Decls {
+		gd, ok := d.(*ast.GenDecl)
+		if !ok || gd.Tok != token.CONST {
+			continue
+		}
+		for _, sp := range gd.Specs {
+			vs, ok := sp.(*ast.ValueSpec)
+			if !ok || len(vs.Names) != 1 || !strings.HasPrefix(vs.Names[0].Name, "Default") {
+				continue
+			}
+			doc := vs.Doc
+			if doc == nil && len(gd.Specs) == 1 {
+				doc = gd.Doc
+			}
+			if doc == nil {
+				continue
+			}
+			text := strings.TrimSpace(doc.Text())
+			m := statedDefault.FindStringSubmatch(text)
+			if m == nil || !strings.HasPrefix(text, vs.Names[0].Name) {
+				continue
+			}
+			cst, ok := info.Defs[vs.Names[0]].(*types.Const)
+			if !ok {
+				continue
+			}
+			want, okw := new(big.Rat).SetString(m[1])
+			got, okg := new(big.Rat).SetString(cst.Val().ExactString())
+			if !okw || !okg {
+				continue
+			}
+			run.Count("documented_default_values", 1)
+			good := want.Cmp(got) == 0
+			if !good && m[2] == "%" {
+				// "of 20%" for a fraction 0.2
+				good = new(big.Rat).Mul(got, big.NewRat(100, 1)).Cmp(want) == 0
+			}
+			run.Oblige(good)
+			if !good {
+				c.violate(rule, rel+"."+cst.Name(), "documented "+m[1]+m[2], vs.Pos(), fmt.Sprintf("the constant %s is %s, its documentation says %s%s: the default constructor no longer builds the documented default configuration", cst.Name(), cst.Val().String(), m[1], m[2]))
+			}
+		}
+	}
 }
